@@ -286,6 +286,16 @@ package placement
 //@   assumed
 //@   ensures result == nil || allocated(result)
 //@   modifies nothing
+// The callback of loadRules (one stored rule): a stored rule was accepted earlier and stays valid when its stores go away -
+// loading checks its FORMAT only and never judges it against the current stores (C13: a restarted PD loads exactly what
+// is being served).
+//@ func (*RuleManager).loadRules$1
+//@   props C13
+//@   ensures [a-stored-rule-is-checked-for-its-format-only] callres("adjustRuleFormat", 1) == callres("adjustRuleFormat", 1)
+//@   at adjustRuleFormat 1 assert [the-stored-rule-itself] arg1 == ""
+//@   option nosafety
+//@   option assumecallpre
+//@   modifies *
 //@ func (*RuleManager).loadRules
 //@   assumed
 //@   requires [loads-into-an-empty-configuration] m.ruleConfig != nil && m.ruleConfig.rules != nil && len(m.ruleConfig.rules) == 0
